@@ -112,6 +112,9 @@ structure DSt where
   wakeSamples : Nat := 0
   wakeMedianUs : Int := 0
   liveCands : Array String := #[]      -- liveness verdicts, decided at the end of the run (machine load is run-wide)
+  pluginCase : Bool := false   -- script=plugin: the real PluginCheckTask; its +1 / -1 happen (and are logged) OUTSIDE the checker's mutex
+  piSince : Int := 0           -- such +1s logged since the last event that was logged under the checker's mutex
+  slotReordered : Nat := 0     -- dispatches judged with the counter as it stood before those +1s
   caseReported : Nat := 0      -- MISMATCH lines printed for the current case (capped)
   caseReportedSpec : Nat := 0  -- SPECFAIL lines printed for the current case (capped)
 
@@ -197,7 +200,7 @@ def kvGet (ws : List String) (key : String) : Option String :=
 def closeCase (d : DSt) : DSt :=
   if d.sched && d.caseForced > 0 && (d.caseBusy + d.caseSkips) > 0 then { d with nontrivial := d.nontrivial + 1 } else d
 
-def handleSched (d : DSt) (n : Nat) (kind : String) (c : Nat) (args obs : List String) : IO DSt := do
+def handleSched' (d : DSt) (n : Nat) (kind : String) (c : Nat) (args obs : List String) : IO DSt := do
   if c ≥ d.cs.size then
     IO.println s!"BADLINE line={n}"; return d
   let cst := d.cs.getD c {}
@@ -295,6 +298,12 @@ def handleSched (d : DSt) (n : Nat) (kind : String) (c : Nat) (args obs : List S
         d := setM d c fun cs => { cs with m := { cs.m with nextCheck := key } }
       -- the counter as the logged events imply it (dispatches and plugin +1s minus the decrements), not the value the schedule
       -- point happens to read: a harmless move of IncreasePendingChecks() into the critical section must not matter
+      -- The scheduler reads the counter (checkercomponent.cpp:121) earlier in the SAME critical section that ends at this point.  The real
+      -- PluginCheckTask's own +1 (script=plugin) happens outside the checker's mutex, so a `pi` logged since the last mutex-ordered event
+      -- may have happened after the scheduler's read although it precedes this line: such +1s are taken as happening after the
+      -- dispatch (pluginInc commutes with sched but for the counter test) when that is what makes the dispatch legitimate.
+      let reorder : Int := if d.counter ≥ d.max && d.counter - d.piSince < d.max then d.piSince else 0
+      if reorder > 0 then d := { d with counter := d.counter - reorder, slotReordered := d.slotReordered + 1 }
       let slotBefore := d.counter
       let st := d.view
       if !decide (schedEnabled st c now) then
@@ -339,6 +348,7 @@ def handleSched (d : DSt) (n : Nat) (kind : String) (c : Nat) (args obs : List S
         | some d' => d := d'
         | none => d := setM d c fun cs => { cs with m := if isPick then cs.m.pick now else cs.m.skip }
       d ← compareLoc d n kind c i p key
+      if reorder > 0 then d := { d with counter := d.counter + reorder }
       if isPick then
         d := setM d c fun cs =>
           let k := cs.picksN + 1
@@ -451,6 +461,15 @@ def handleSched (d : DSt) (n : Nat) (kind : String) (c : Nat) (args obs : List S
   | "xe", _, [t] => spec { d with lastXeNow := (parseInt? t).getD d.lastXeNow } n c [.execEnd c]
   | _, _, _ => IO.println s!"BADLINE line={n}"; return d
 
+def handleSched (d : DSt) (n : Nat) (kind : String) (c : Nat) (args obs : List String) : IO DSt := do
+  let d' ← handleSched' d n kind c args obs
+  -- events logged while the checker's mutex is held (the emulated asynchronous commands do their +1 / -1 under it; the real
+  -- PluginCheckTask does not)
+  let locked := ["pick", "skip", "fin", "obj", "nc", "force"].contains kind || (!d.pluginCase && (kind == "pi" || kind == "pd"))
+  if locked then return { d' with piSince := 0 }
+  else if kind == "pi" then return { d' with piSince := d'.piSince + 1 }
+  else return d'
+
 def handle (d : DSt) (n : Nat) (line : String) : IO DSt := do
   let ws := words line
   let (pre, post) := splitBar ws
@@ -471,6 +490,7 @@ def handle (d : DSt) (n : Nat) (line : String) : IO DSt := do
                         kvGet rest "script" == some "wakeup_resched",
                       wakeupAsync := kvGet rest "script" == some "wakeup_async",
                       wakeupResched := kvGet rest "script" == some "wakeup_resched", wakeDelays := #[],
+                      pluginCase := kvGet rest "script" == some "plugin", piSince := 0,
                       schedCases := d.schedCases + 1, max := mx, counter := 0, boundUs := bound * 1000,
                       sp := { max := mx }, cs := Array.replicate (nn + pool) {} }
     | _, _, _, _ =>
@@ -593,7 +613,7 @@ def main : IO Unit := do
       d := { d with specfails := d.specfails + d.liveCands.size }
     else d := { d with livenessInconclusive := d.liveCands.size }
   IO.println (s!"STATS cases={d.cases} sched_cases={d.schedCases} steps={d.steps} arith={d.arith} arith_adjusted={d.arithAdj} " ++
-    s!"picks={d.picks} forced_picks={d.forcedPicks} skips={d.skips} guard_busy={d.busy} execs={d.execs} async_execs={d.asyncExecs} exit_before_plugin_inc={d.exitBeforeInc} exit_while_not_idle={d.exitNotIdle} counter_over_max={d.counterOverMax} windows={d.windows} rearm_checked={d.rearms} skip_rearm_checked={d.skipRearms} " ++
+    s!"picks={d.picks} forced_picks={d.forcedPicks} skips={d.skips} guard_busy={d.busy} execs={d.execs} async_execs={d.asyncExecs} exit_before_plugin_inc={d.exitBeforeInc} exit_while_not_idle={d.exitNotIdle} counter_over_max={d.counterOverMax} windows={d.windows} slot_judged_before_plugin_inc={d.slotReordered} rearm_checked={d.rearms} skip_rearm_checked={d.skipRearms} " ++
     s!"object_sections={d.objs} reindex={d.reindex} erased_while_pending={d.erasedPending} finish_found_gone={d.finDropped} " ++
     s!"ops={d.ops} forces={d.forces} force_ambiguous={d.forceAmb} quiescent={d.quiescent} " ++
     s!"lat_lt1ms={d.lat1ms} lat_lt10ms={d.lat10ms} lat_lt100ms={d.lat100ms} lat_lt1s={d.lat1s} lat_ge1s={d.latMore} lat_max_us={d.latMaxUs} " ++
